@@ -240,6 +240,37 @@ def _parse_accept(header, naive):
     return level, why, members
 
 
+def ref_parse_header(text):
+    """Documented result of the public parse_header(): (main value, {lower-cased option: unquoted value}).
+
+    None when the text is outside the part of the grammar with a single obvious reading (then only
+    "the caller may change the returned dict without affecting later calls" is checked)."""
+    if any((ord(c) < 32 and c != '\t') or ord(c) >= 127 for c in text):
+        return None
+    segs, unterminated = split_top(text, ';')
+    if unterminated or '"' in segs[0] or '\\' in segs[0]:
+        return None
+    opts = {}
+    for seg in segs[1:]:
+        s = seg.strip(OWS)
+        if s == '':
+            continue
+        if '=' not in s:
+            return None
+        name, value = s.split('=', 1)
+        name, value = name.strip(OWS), value.strip(OWS)
+        if not is_token(name) or name.lower() in opts:
+            return None
+        if is_token(value):
+            opts[name.lower()] = value
+        else:
+            u = unquote(value)
+            if u is None or not u[1]:
+                return None
+            opts[name.lower()] = u[0]
+    return segs[0].strip(OWS), opts
+
+
 def has_quoted_comma(header):
     """A comma inside a (terminated) quoted-string."""
     parts, unterminated = split_top(header, ',')
